@@ -45,6 +45,9 @@ def run(an: Analysis, rep):
     rep.run(r075, an, rep, enc, cdec)
     rep.run(r076, an, rep, enc, defs)
     rep.run(r077, an, rep, enc)
+    from .common import SharedRules
+    from . import c08
+    rep.run(c08.r083, an, SharedRules(rep, "R07.S", "from_json_data stores tuples where the data classes declare tuples (shared with C08's R08.3): a list left in place makes the result unequal to x and unhashable"))
     rep.stats.update(an.stats([an.interp("to_json")[0], an.interp("from_json")[0]]))
 
 
